@@ -331,6 +331,10 @@ func (db *RockDB) BitCountV2(key []byte, start, end int64) (int64, error) {
 		if err != nil {
 			return 0, err
 		}
+		if index > int64(stopI)*bitmapSegBytes {
+			// behind the last byte of the range
+			break
+		}
 		bmv := it.RefValue()
 		if bmv == nil {
 			continue
@@ -345,6 +349,10 @@ func (db *RockDB) BitCountV2(key []byte, start, end int64) (int64, error) {
 			if byteEnd > len(bmv) {
 				byteEnd = len(bmv)
 			}
+		}
+		if byteStart >= byteEnd {
+			// the range starts behind the stored bytes of this (short) segment
+			continue
 		}
 		total += popcountBytes(bmv[byteStart:byteEnd])
 	}
